@@ -672,7 +672,7 @@ fn main() {
     mon.set_rule("case = one find_closest_nodes lookup on a MemNet of real nodes (+ scripted liars) judged from its call/return and RPC trace; non-trivial when >=2 remote peers were known/learned and >=1 request frame was observed; distinct by (topology, N, puppets, K, fault class, #requests, result size) plus distinct frame delivery orders");
     mon.assume("in-memory link replaces ant-quic below TransportHandle; node ids aligned (local_peer_id = hex transport id); virtual (paused) clock");
     mon.assume("closure is judged only when learned+phantom ids <= 25 so the 20x3 request budget cannot be the reason a peer was skipped");
-    let per_shard = mon.by_tier(300u64, 40_000);
+    let per_shard = mon.by_tier(600u64, 40_000);
     vkit::run_shards(mon.shards(), mon.seed, |_i, mut rng| {
         for _ in 0..per_shard {
             if mon.time_up() {
